@@ -175,6 +175,7 @@ func regexpNext(sb *strings.Builder, sl *stringLexer, mode Mode) error {
 				break
 			}
 			start := sl.i - 1       // position of the operator
+			mark := sb.Len()        // to go back to, if the group turns out to be unmatched
 			sb.WriteRune(sl.next()) // (
 		nestedLoop:
 			for {
@@ -191,6 +192,15 @@ func regexpNext(sb *strings.Builder, sl *stringLexer, mode Mode) error {
 				} else if err != nil {
 					return err
 				}
+			}
+			if sl.peekNext() != ')' {
+				// Like Bash, an unmatched "(" makes the operator a literal;
+				// drop what we wrote and reparse from the operator as a regular pattern.
+				head := sb.String()[:mark]
+				sb.Reset()
+				sb.WriteString(head)
+				sl.i = start + 1
+				break
 			}
 			sb.WriteRune(sl.next()) // )
 			if op == '!' {
